@@ -514,19 +514,35 @@ def run_check(chk: Check, tier="quick", seed=0, replay=None):
 
     # 5. failing-input search when something is broken but no input fails ----
     if problems and not violations and not replay:
-        extra = list(chk.extra_search(rng.fork("search"), tier, problems))
-        eobs = parallel_map(lambda c: _impl_safe(chk, c), extra, procs)
-        for c, o in zip(extra, eobs):
-            if isinstance(o, dict) and "__crash__" in o:
-                continue
-            f = chk.oracle(c, o)
-            if f:
-                fid = chk.classify(c, o, f)
-                if fid is not None and fid in open_ids:
-                    continue
-                violations.append({"property": prop, "kind": "property-failure-on-implementation(search)",
-                                   "what": f, "case": c, "impl": o, "seed": seed, "tier": tier})
+        # bounded in wall-clock time (quick: 4 min, thorough: 30 min); a search that runs out of time ends
+        # like one that finds nothing: the violation is still reported, with no-failing-input-found
+        deadline = time.time() + float(os.environ.get("VERIF_SEARCH_SECS", "240" if tier == "quick" else "1800"))
+        chunk, searched = [], 0
+        gen = iter(chk.extra_search(rng.fork("search"), tier, problems))
+        done = False
+        while not done and not violations and time.time() < deadline:
+            chunk = []
+            for c in gen:
+                chunk.append(c)
+                if len(chunk) >= max(64, 4 * procs):
+                    break
+            else:
+                done = True
+            if not chunk:
                 break
+            searched += len(chunk)
+            eobs = parallel_map(lambda c: _impl_safe(chk, c), chunk, procs)
+            for c, o in zip(chunk, eobs):
+                if isinstance(o, dict) and "__crash__" in o:
+                    continue
+                f = chk.oracle(c, o)
+                if f:
+                    fid = chk.classify(c, o, f)
+                    if fid is not None and fid in open_ids:
+                        continue
+                    violations.append({"property": prop, "kind": "property-failure-on-implementation(search)",
+                                       "what": f, "case": c, "impl": o, "seed": seed, "tier": tier})
+                    break
 
     # shrink the first concrete violation
     if violations and "case" in violations[0]:
